@@ -98,7 +98,7 @@ fn check_nesting(ctx: &Ctx, x: &[u8], origin: &str) {
 }
 
 pub fn run(ctx: &Ctx) {
-    ctx.rule("inputs = valid encodings restricted to the modern tag set (from the independent writer) + valid encodings over all admissible tags incl. legacy ones (agreement where both accept) + every valid input with one place spelled another way the format offers (judged as a valid modern input when an independent reader parses it and meets modern tags only) + their truncations at every offset + byte mutations/splices + random bytes; distinct = distinct (outcome pair of the two decoders, first tag byte, input-length bucket, value-kind set for valid inputs)");
+    ctx.rule("inputs = valid encodings restricted to the modern tag set (from the independent writer) + valid encodings over all admissible tags incl. legacy ones (agreement where both accept) + every valid input with one place spelled another way the format offers (judged as a valid modern input when an independent reader parses it and meets modern tags only) + inputs at and just past the decoders' size limits with the payload really present (binaries and bit-strings of 10^8 bytes, maps of 10^6 entries, atoms of 65535 bytes) + their truncations at every offset + byte mutations/splices + random bytes; distinct = distinct (outcome pair of the two decoders, first tag byte, input-length bucket, value-kind set for valid inputs)");
     ctx.assume("modern tag set = 70,77,88,89,90,97,98,104..111,112,113,116,118,119,120 (what OTP 26+ emits over distribution)");
     let opts = Opts { modern_only: true, ..Opts::default() };
     let mut rng = Rng::derive(ctx.seed, 13, 1);
@@ -230,6 +230,49 @@ pub fn run(ctx: &Ctx) {
             }
             cls(ctx, &cur, "mut");
             check(ctx, &cur, None, "mutation");
+        }
+    }
+    // at and just past the decoders' size limits, with the payload really there (a declared size alone is refused by
+    // both for want of data): whatever the owned decoder makes of it, the zero-copy one must make the same
+    {
+        let big = |tag: &[u8], n: usize, tail: &[u8]| {
+            let mut v = Vec::with_capacity(n + 16);
+            v.push(131);
+            v.extend_from_slice(tag);
+            v.extend_from_slice(&(n as u32).to_be_bytes());
+            v.extend_from_slice(tail);
+            v.resize(v.len() + n, 0x5a);
+            v
+        };
+        for n in [99_999_999usize, 100_000_000, 100_000_001] {
+            ctx.class(&format!("limits/binary/{}", if n > 100_000_000 { "over" } else { "within" }));
+            check(ctx, &big(&[109], n, &[]), None, "binary around the size limit");
+            ctx.class(&format!("limits/bit-binary/{}", if n > 100_000_000 { "over" } else { "within" }));
+            check(ctx, &big(&[77], n, &[3]), None, "bit-string around the size limit");
+            let mut nested = vec![131u8, 104, 2, 97, 1];
+            nested.extend_from_slice(&big(&[109], n, &[])[1..]);
+            check(ctx, &nested, None, "binary around the size limit inside a tuple");
+        }
+        for n in [999_999usize, 1_000_000, 1_000_001] {
+            let mut m = vec![131u8, 116];
+            m.extend_from_slice(&(n as u32).to_be_bytes());
+            for k in 0..n as u32 {
+                m.push(98);
+                m.extend_from_slice(&k.to_be_bytes());
+                m.push(106);
+            }
+            ctx.class(&format!("limits/map/{}", if n > 1_000_000 { "over" } else { "within" }));
+            check(ctx, &m, None, "map around the size limit");
+        }
+        for n in [65_535usize, 65_536] {
+            // atoms of the greatest length the two-byte field can announce, in both encodings
+            for tag in [118u8, 100] {
+                let mut a = vec![131u8, tag];
+                a.extend_from_slice(&(n.min(65_535) as u16).to_be_bytes());
+                a.resize(a.len() + n.min(65_535), b'a');
+                ctx.class("limits/atom");
+                check(ctx, &a, None, "atom of the greatest length");
+            }
         }
     }
     // sibling keys: maps keyed by two values that differ minimally (incl. pairs Erlang's == identifies: 1 / 1.0,
